@@ -604,13 +604,34 @@ func c17ClientNext(r *Run) {
 	r.Floor("client-next", nDone, 1, "stores to openDir.done")
 	// decodes exactly buf[:n]
 	okSl := false
-	for _, c := range findCalls(nx, "bytes.NewReader") {
-		if sl, ok := c.Call.Args[0].(*ssa.Slice); ok && loadsField(sl.X, recv, "buf") && sl.Low == nil && sl.High == n {
-			okSl = true
+	isChunk := func(v ssa.Value) bool {
+		sl, ok := v.(*ssa.Slice)
+		return ok && loadsField(sl.X, recv, "buf") && sl.Low == nil && sl.High == n
+	}
+	var dd []*ssa.Call
+	for _, f := range p.withHelpers(nx, 1) {
+		dd = append(dd, findCalls(f, "p9p.DecodeDir")...)
+		for _, c := range findCalls(f, "bytes.NewReader") {
+			if f == nx {
+				if isChunk(c.Call.Args[0]) {
+					okSl = true
+				}
+				continue
+			}
+			// the decoding loop moved into a helper: the reader is built over a parameter that Next binds to buf[:n]
+			for i, prm := range f.Params {
+				if c.Call.Args[0] != ssa.Value(prm) {
+					continue
+				}
+				for _, cs := range findCalls(nx, fnName(f)) {
+					if i < len(cs.Call.Args) && isChunk(cs.Call.Args[i]) {
+						okSl = true
+					}
+				}
+			}
 		}
 	}
 	r.Check(okSl, "client-next", "openDir.Next: decodes exactly the bytes received (buf[:n])", rdc.Pos(), "stale bytes beyond n are decoded as entries")
-	dd := findCalls(nx, "p9p.DecodeDir")
 	r.Check(len(dd) == 1 && inLoop(dd[0]), "client-next", "openDir.Next: decodes entries until the chunk is exhausted", nx.Pos(), "entries after the first of a chunk are not decoded")
 	if len(dd) == 1 {
 		e := errResult(dd[0])
